@@ -266,8 +266,8 @@ var props = map[string]*Prop{
 		Units: []Unit{
 			{Name: "report-layer-map-orders", Pkg: "pkg/diff", Test: "TestVerifC10Match", Tags: []string{"verif_sched"}, Shards: sh(4, 4), GoMaxProcs: 2, TimeoutS: sh(1800, 3600), DeadlineS: sh(600, 2400),
 				Profile: ovgen.Profile{MapRanges: []string{"pkg/diff", "pkg/detection", "pkg/analysis/topology"}}},
-			{Name: "worker-schedules", Pkg: "internal/cli", Test: "TestVerifC10Workers", Tags: []string{"verif_workers"}, Shards: sh(4, 4), GoMaxProcs: 2, TimeoutS: sh(1800, 3600), DeadlineS: sh(600, 2400),
-				Profile: ovgen.Profile{Imports: []ovgen.ImportRewrite{
+			{Name: "worker-schedules", Pkg: "internal/cli", Test: "TestVerifC10Workers", Tags: []string{"verif_workers"}, Shards: sh(5, 5), GoMaxProcs: 2, TimeoutS: sh(1800, 3600), DeadlineS: sh(600, 2400),
+				Profile: ovgen.Profile{MapRanges: []string{"internal/cli"}, Imports: []ovgen.ImportRewrite{
 					{File: "internal/cli/check.go", Map: map[string]string{"sync": ovgen.ShimBase + "vsync", "golang.org/x/sync/errgroup": ovgen.ShimBase + "verrgroup"}},
 					{File: "internal/cli/scan.go", Map: map[string]string{"sync": ovgen.ShimBase + "vsync", "golang.org/x/sync/errgroup": ovgen.ShimBase + "verrgroup"}},
 				}}},
